@@ -155,7 +155,9 @@ comparison / isinstance / `not` result) carries a constraint on `v` (`w = t + t 
 pyanalyze applies that constraint (inverted in the else branch) to `v` although the truth value of `w` may come from
 another member of the union. -/
 def P_unionMemberConstraint (s : Sk) : Bool := s.testFlag == 2
-/-- own class: the condition is `v in <str>` / `v not in <str>`: the narrowing treats the str as the collection of its
+/-- REPAIRED in /repo (e71c8d1): no longer one of the classes `d01Classes` reports — a recurrence is a new violation;
+the witness stays in corpus/C01.jsonl as a regression case. Formerly an own class: the condition is `v in <str>` /
+`v not in <str>`: the narrowing treats the str as the collection of its
 characters (`InPredicate`), but `in` on strs is substring containment: `'' in ''`, `'ab' in 'ab'`. -/
 def P_strContainment (s : Sk) : Bool := s.testFlag == 3
 /-- REPAIRED in /repo (232b32d): no longer one of the classes `d01Classes` reports — a recurrence is a new violation;
@@ -175,7 +177,6 @@ def P_loopConstraintCycle (s : Sk) : Bool := s.isLoop && Sk.anyS (fun y => y.tes
 def d01Classes (prog : List Sk) : List String :=
   let c (name : String) (P : Sk → Bool) : List String := if scanL P false prog then [name] else []
   c "C02:promote" P_promote ++ c "unionMemberConstraint" P_unionMemberConstraint ++
-  c "strContainment" P_strContainment ++
   c "loopCarriedLiteral" P_loopCarriedLiteral ++
   c "C09:loopElse" P_loopElse ++
   c "C09:secondVisitSeed" P_secondVisitSeed ++ c "C09:loopBreak" P_loopBreak ++
